@@ -15,9 +15,11 @@
   COMPOSED: `text_roundtrip_custom` — the parsed document, its applied custom directives erased (`eraseCustom`), is the
   document of the directive-free printer (with the `schema` block also when only a directive node forces it) and builds to
   the schema (`print_build_roundtrip_block`); hypotheses `printTextWFA` and `printBuildWF s` only.
-  NOT PROVED (exercised by the fixpoint oracle on the real code and by C11's builder correspondence): that `build` itself
-  ignores applications of non-specified directives, `build doc = build (doc.map eraseCustom)` — the builder model reads
-  `dirs` only through `deprecationReason`, the lift through all of `build` is open.
+  WITHOUT ERASURE (`Props/C12_custom_build.lean`): `print_build_roundtrip_custom` — `build (schemaToDocA s c apps) = ok s`,
+  by congruence of every environment-reading function of the builder model (`value_from_ast`, the thunk guard, `build_*`)
+  under "same definitions up to custom applications" — and `text_roundtrip_custom_build`, the text-level round trip whose
+  built document is the parsed one.  Still open: `build doc = build (doc.map eraseCustom)` for ARBITRARY documents
+  (extensions included); it is evaluated by the driver on every printed document (`BuildIgnoresCustomStatement`).
 -/
 import PyGqlModel.Lemmas.SdlTextAOrder
 import PyGqlModel.Props.C12_order
